@@ -217,7 +217,13 @@ func (s *Sched) Panicked(r interface{}, stack []byte) {
 }
 
 func (s *Sched) Locked(m unsafe.Pointer) {
-	g := s.cur()
+	s.mu.Lock()
+	if s.owner[m] != nil { // already recorded when the lock gate was released
+		s.mu.Unlock()
+		return
+	}
+	s.mu.Unlock()
+	g := s.cur() // TryLock, or a lock taken while draining
 	s.mu.Lock()
 	s.owner[m] = g
 	g.held = append(g.held, m)
@@ -528,6 +534,12 @@ func (s *Sched) enabled() (en []trans, wakeAt int64) {
 
 func (s *Sched) release(g *G, k int) {
 	s.mu.Lock()
+	if op := g.op; op != nil && (op.Kind == shim.OpLock || op.Kind == shim.OpRLock) && !s.draining.Load() {
+		// the goroutine is about to take the (free) mutex: record the owner here, which saves
+		// it a goroutine-id lookup
+		s.owner[op.Obj] = g
+		g.held = append(g.held, op.Obj)
+	}
 	g.op = nil
 	s.mu.Unlock()
 	g.wake <- k
